@@ -66,6 +66,8 @@ def program_strategy(draw, max_ops=8):
         st.fixed_dictionaries({"op": st.just("dcopy"), "data": st.integers(0, 10),
                                "mask": st.lists(st.booleans(), min_size=2, max_size=12)}),
         st.just({"op": "reopen"}),
+        # "blind": nothing is read from the re-opened object before the next operation
+        st.just({"op": "reopen", "blind": True}),
         # more vertices are appended through the `vertices` setter and the file is re-opened (the live arrays are not
         # judged in between: the statement lists no growth operation, a reader must still find one entry per vertex)
         st.fixed_dictionaries({"op": st.just("grow"), "k": st.integers(1, 3)}),
@@ -407,6 +409,9 @@ class C07(Check):
                     ws = Workspace(path)
                     obj = ws.get_entity(uid)[0]
                     res.label("reopen")
+                    if op.get("blind"):
+                        res.label("reopen:nothing-read-before-next-op")
+                        continue
                 bad = self.verify(obj, model, res, kind, "live")
                 if bad:
                     res.fail(f"C07/{bad[0][0]}/{kind}/{cls_name}/live{zero_cells}", f"step {step} {op}: {bad[0][1]}"[:600])
